@@ -1,7 +1,8 @@
 #!/bin/bash
 # usage: lib/seeded_regression.sh [id ...]
 # applies every kept seeded change to /repo in turn, runs the QUICK check of the property it was
-# written against, reverts, and writes one line per change to seeded/REGRESSION.txt.
+# written against (or the check named by meta.json 'regression_check' when the change lands in
+# another property's territory), reverts, and writes one line per change to seeded/REGRESSION.txt.
 # /repo must be clean; nothing else may use /repo or /verif/target meanwhile.
 cd /verif
 if ! git -C /repo diff --quiet; then echo "/repo working tree not clean"; exit 2; fi
@@ -9,7 +10,7 @@ ids=${@:-$(ls seeded | grep -v REGRESSION)}
 out=seeded/REGRESSION.txt
 [ $# -eq 0 ] && : > $out
 for id in $ids; do
-  prop=$(python3 -c "import json;print(json.load(open('seeded/$id/meta.json'))['property'].split()[0].strip(',;'))")
+  prop=$(python3 -c "import json;m=json.load(open('seeded/$id/meta.json'));print(m.get('regression_check') or m['property'].split()[0].strip(',;'))")
   git -C /repo apply /verif/seeded/$id/patch.diff || { echo "$id $prop PATCH-DOES-NOT-APPLY" | tee -a $out; continue; }
   s=$(date +%s)
   res=$(./check $prop --tier quick 2>&1); code=$?
